@@ -3,7 +3,8 @@
    IPM hex           -> NONE | OK ip width | CRASH cls
    INT s|b hex       -> OK z | CRASH cls         (int(str) / int(bytes))
    MB NONE | MB ip   -> n                         (_maskbits)
-   IPR hex / NST hex -> NONE | OK ip w mask | CRASH cls   (_route_iproute / _route_netstat)
+   IPR hex / NST hex / WIN hex -> NONE | OK ip w mask | CRASH cls   (_route_iproute / _route_netstat / _route_windows)
+   tool: ip | netstat | none | win
    WORDS hex         -> w1hex w2hex ...           (str.split(None))
    LR tool hex       -> <repaired> | <as found>   each: OK ip/w,ip/w,... | CRASH cls   (_list_routes)
    ADV tool hex      -> <repaired> | <as found>   each: OK payloadhex | CRASH cls    (list_routes + ROUTES + Mux.send)
@@ -18,7 +19,7 @@ let str_of (l : ascii list) : string =
   List.iter (fun a -> Buffer.add_char b (Char.chr (int_of_ascii a))) l; Buffer.contents b
 let zs z = str_of (decZ z)
 let ns n = str_of (dec n)
-let tool_of = function "ip" -> IpRoute | "netstat" -> Netstat | "none" -> NoTool | s -> failwith ("bad tool " ^ s)
+let tool_of = function "ip" -> IpRoute | "netstat" -> Netstat | "none" -> NoTool | "win" -> RouteWin | s -> failwith ("bad tool " ^ s)
 let route_str r = Printf.sprintf "%s/%s" (str_of r.r_ip) (zs r.r_width)
 let routes_res = function
   | Ok rs -> "OK " ^ String.concat "," (List.map route_str rs)
@@ -53,6 +54,7 @@ let handle = function
   | ["MB"; ip] -> zs (maskbits (Some (n_of_int (int_of_string ip), z_of_int 32)))
   | ["IPR"; hx] -> extract_str (route_iproute (bytes_of_hex hx))
   | ["NST"; hx] -> extract_str (route_netstat (bytes_of_hex hx))
+  | ["WIN"; hx] -> extract_str (route_windows (bytes_of_hex hx))
   | ["WORDS"; hx] -> String.concat " " (List.map hex_of_bytes (words (bytes_of_hex hx)))
   | ["LR"; t; hx] ->
       let b = bytes_of_hex hx in
